@@ -42,6 +42,7 @@ def plan(tier, seed):
         specs.append({"family": "exhaustive", "names": names[s:s + per], "vmax": 1 if q else 2, "seed": seed, "n": per})
     specs += shards("twocol", 1, 1, seed)
     specs += shards("direct", 20000 if q else 2000000, 2500 if q else 50000, seed)
+    specs += shards("reused_compiler", 10000 if q else 500000, 2500 if q else 50000, seed)
     specs += shards("parsed", 2000 if q else 100000, 250 if q else 4000, seed)
     return specs
 
@@ -113,6 +114,15 @@ def run_shard(spec, M):
             k = pc.assign_ids(doc)
             M.case(h64(doc))
             pc.compare(doc, "u", k, ID, M, {"kind": "ast", "doc": doc, "next_id": k})
+    elif fam == "reused_compiler":
+        from gherkin.pickles.compiler import Compiler
+        comp = Compiler()
+        for i in range(spec["start"], spec["start"] + spec["n"]):
+            r = rng(seed, ID, "reused", i)
+            doc = pc.AstGen(r, hostile_names=True).doc()
+            k = pc.assign_ids(doc)
+            M.case(h64(doc))
+            pc.compare(doc, "u", k, ID, M, {"kind": "shard", "spec": spec, "index": i}, compiler=comp)
     elif fam == "parsed":
         for i in range(spec["start"], spec["start"] + spec["n"]):
             one_parsed(seed, i, M)
@@ -152,7 +162,9 @@ def one_parsed(seed, i, M):
 
 
 def replay(case, M):
-    if case["kind"] == "triple":
+    if case["kind"] == "shard":
+        run_shard(case["spec"], M)
+    elif case["kind"] == "triple":
         check_triple(case["headers"], case["values"], case["template"], M)
     elif case["kind"] == "ast":
         pc.compare(case["doc"], "u", case["next_id"], ID, M, case)
